@@ -166,7 +166,7 @@ Proof.
   - injection E as <- <-. exact Hst.
   - assert (Hin' : forall run0 r, In run0 runs -> In r run0 -> In r z) by (intros ? ? X Y; eapply Hin; [right; exact X|exact Y]).
     destruct run as [|f run]; [eapply IH; eassumption|].
-    destruct (negb (ttls_ok f (f :: run))); [discriminate|].
+    destruct (ttl_check f (f :: run)); [discriminate|].
     destruct (N.eqb_spec (t_type f) rt_SOA) as [Es|Es].
     + destruct (soa_max_len <? length (f :: run))%nat; [discriminate|].
       eapply IH; [exact Hin'| |exact E]. unfold n3_upd, soa_ttl. cbv [ttl_is_min]. cbn [from_soa3].
@@ -236,3 +236,126 @@ Example nsec3_t_example :
   | _ => False
   end.
 Proof. vm_compute. auto. Qed.
+
+(* ---- no panic for the TTL model: under uniform RRset TTLs it is step for
+   step the plain model, which does not panic on a sorted zone *)
+From DV Require Import C13.ProofsDeny C13.ProofsN3f.
+
+Definition runs_uniform (runs : list (list trec)) : Prop :=
+  forall run f r, In run runs -> (exists tl, run = f :: tl) -> In r run -> t_type f <> 46 -> t_ttl r = t_ttl f.
+
+Lemma uniform_runs apex z g : rrset_ttls_uniform z -> In g (tgroups (tskip_before apex z)) ->
+  runs_uniform (truns (snd g)).
+Proof.
+  intros Hu Hg run f r Hrun (tl & ->) Hr Hf.
+  assert (HG : forall x, In x (snd g) -> In x z /\ name_eqb (t_name x) (fst g) = true).
+  { intros x Hx. destruct (tgroups_in _ g x Hg Hx) as [A B]. split; [apply (tskip_in apex); exact A|exact B]. }
+  destruct (truns_in (snd g) _ r Hrun Hr) as [A B]. destruct (truns_in (snd g) _ f Hrun (or_introl eq_refl)) as [A' _].
+  destruct (HG r A) as [Z1 N1]. destruct (HG f A') as [Z2 N2].
+  symmetry. apply (Hu f r Z2 Z1); [|congruence|exact Hf].
+  rewrite name_eqb_sym in N1. eapply name_eqb_trans; eassumption.
+Qed.
+
+Lemma tnsec3_bitmap_sim c m at_cut has_ds at_apex recs st : runs_uniform (truns recs) ->
+  omap st_erase (tnsec3_bitmap c m at_cut has_ds at_apex recs st) =
+    nsec3_bitmap c at_cut has_ds at_apex (map t_type recs) (is_some st).
+Proof.
+  intros Hu. destruct (tnsec3_bitmap_erase c m at_cut has_ds at_apex recs st) as [P|E]; [|exact E].
+  exfalso. unfold tnsec3_bitmap in P.
+  match type of P with context [trrset_loop ?u ?a ?b ?r ?bm ?s] =>
+    destruct (trrset_loop_cases u a b r bm s Hu) as [(bm' & st' & E & _)|E]; rewrite E in P end; cbn [bind] in P.
+  - destruct (is_some st'); discriminate.
+  - discriminate.
+Qed.
+
+Lemma tnsec3_bitmap_some c m at_cut has_ds at_apex recs st bm st' :
+  tnsec3_bitmap c m at_cut has_ds at_apex recs st = Ok (bm, st') -> is_some st' = true.
+Proof.
+  unfold tnsec3_bitmap. intros E. apply bind_ok in E as ([bm1 st1] & _ & E).
+  destruct (is_some st1) eqn:Es; [|discriminate]. injection E as _ <-. exact Es.
+Qed.
+
+Definition e3 (r : list (n3pre * N) * list name * option (N * N)) : list n3pre * list name * bool :=
+  (map fst (fst (fst r)), snd (fst r), is_some (snd r)).
+
+Lemma n3_loop_t_sim H apex c m excl : forall gs cut stack ents st acc,
+  (forall g, In g gs -> runs_uniform (truns (snd g))) ->
+  omap e3 (n3_loop_t H apex c m excl gs cut stack ents st acc) =
+  n3_loop H apex c excl (map tgroup_strip gs) cut stack ents (is_some st) (map fst acc).
+Proof.
+  induction gs as [|g gs IH]; intros cut stack ents st acc Hu; cbn [n3_loop_t map n3_loop]; [reflexivity|].
+  assert (Hu' : forall g0, In g0 gs -> runs_uniform (truns (snd g0))) by (intros g0 X; apply Hu; right; exact X).
+  destruct (negb (is_in_zone apex (tgroup_strip g))); [reflexivity|].
+  change (fst (tgroup_strip g)) with (fst g). change (snd (tgroup_strip g)) with (map t_type (snd g)).
+  destruct (below_cut cut (fst g)); [apply IH; exact Hu'|].
+  destruct (excl && is_zone_cut apex (tgroup_strip g) && negb (memN rt_DS (map t_type (snd g)))); [apply IH; exact Hu'|].
+  destruct (pop_until (fst g) stack) as [last stack'].
+  destruct (match last with Some s => label_dist s apex | None => Ok 0%nat end) as [ld| | |]; cbn [bind omap]; try reflexivity.
+  destruct (label_dist (fst g) apex) as [dta| | |]; cbn [bind omap]; try reflexivity.
+  rewrite <- (tnsec3_bitmap_sim c m _ _ _ (snd g) st (Hu g (or_introl eq_refl))).
+  destruct (tnsec3_bitmap c m (is_zone_cut apex (tgroup_strip g)) (memN rt_DS (map t_type (snd g))) (dta =? 0)%nat (snd g) st)
+    as [[bm st1]| | |] eqn:Eb; cbn [bind omap]; try reflexivity.
+  unfold st_erase. cbn [fst snd bind].
+  destruct (mk_pre H c (fst g) bm) as [p| | |]; cbn [bind omap]; try reflexivity.
+  pose proof (tnsec3_bitmap_some _ _ _ _ _ _ _ _ _ Eb) as Es.
+  destruct st1 as [[t1 p1]|]; [|discriminate]. cbn [bind].
+  apply (IH _ _ _ (Some (t1, p1)) ((p, t1) :: acc) Hu').
+Qed.
+
+Lemma ent_recs_t_sim H c ttl es : omap (map fst) (ent_recs_t H c ttl es) = ent_recs H c es.
+Proof.
+  induction es as [|e es IH]; [reflexivity|]. cbn [ent_recs_t ent_recs].
+  destruct (mk_pre H c e []); cbn [bind omap]; try reflexivity.
+  rewrite <- IH. destruct (ent_recs_t H c ttl es); reflexivity.
+Qed.
+
+Lemma no_panic_omap {A B} (f : A -> B) o : no_panic (omap f o) <-> no_panic o.
+Proof. destruct o; reflexivity. Qed.
+
+Theorem nsec3_t_no_panic H apex c m z : zone_sorted (map trec_strip z) -> rrset_ttls_uniform z ->
+  no_panic (generate_nsec3s_t H apex c m z).
+Proof.
+  intros Hs Hu.
+  assert (Sim : omap (fun o => map fst (o_recs o)) (generate_nsec3s_t H apex c m z) =
+                generate_nsec3s H apex c (map trec_strip z)).
+  { unfold generate_nsec3s_t, generate_nsec3s.
+    pose proof (n3_loop_t_sim H apex c m (opt_out_flag c && c_excl c) (tgroups (tskip_before apex z)) None [] [] None []
+                  (fun g Hg => uniform_runs apex z g Hu Hg)) as L.
+    rewrite tgroups_erase, tskip_erase in L. cbn [map is_some] in L. rewrite <- L.
+    destruct (n3_loop_t H apex c m (opt_out_flag c && c_excl c) (tgroups (tskip_before apex z)) None [] [] None [])
+      as [[[acc ents] st]| | |]; cbn [omap bind e3 fst snd]; try reflexivity.
+    destruct st as [[ttl pttl]|]; cbn [is_some negb]; [|reflexivity].
+    change ((fix go (es : list name) : outcome (list n3pre) :=
+               match es with
+               | [] => Ok []
+               | e :: es' => do p <- mk_pre H c e []; do ps <- go es'; Ok (p :: ps)
+               end) ents) with (ent_recs H c ents).
+    rewrite <- (ent_recs_t_sim H c ttl ents).
+    destruct (ent_recs_t H c ttl ents) as [er| | |]; cbn [omap bind]; try reflexivity.
+    change (omap (fun o => map fst (o_recs o))
+              (do out <- gfinish (n3pre * N) fst (rev acc ++ er);
+               Ok (mk_n3out (map (fun x => (fst x, snd (snd x))) out) nsec3_class pttl)) =
+            finish3 (rev (map fst acc) ++ map fst er)).
+    rewrite <- map_rev, <- map_app, <- (gfinish_erase (n3pre * N) fst).
+    destruct (gfinish (n3pre * N) fst (rev acc ++ er)); cbn [omap bind o_recs]; try reflexivity.
+    rewrite map_map. reflexivity. }
+  apply (no_panic_omap (fun o => map fst (o_recs o))). rewrite Sim. apply nsec3_no_panic. exact Hs.
+Qed.
+
+Theorem nsec3param_record_spec H apex c m z o : generate_nsec3s_t H apex c m z = Ok o ->
+  exists s, In s z /\ t_type s = 6 /\
+    nsec3param_record apex c o =
+      (apex, 1, match m with PFixed t => t | PSoa => t_ttl s | PSoaMin => t_min s end,
+       (c_alg c, c_flags c, c_iters c, c_salt c)).
+Proof.
+  intros E. destruct (nsec3_t_ttl_class H apex c m z o E) as (Hc & _ & s & Hs & Ht & Hp).
+  exists s. split; [exact Hs|]. split; [exact Ht|]. unfold nsec3param_record, n3_params. rewrite Hc, Hp. reflexivity.
+Qed.
+
+(* pins of T1 items that only steer executable behaviour *)
+Example alg_and_optout_pins :
+  mk_pre (fun x => x) (mk_n3cfg true 2 0 0 [] true) [] [] = Err 3 /\
+  is_ok (mk_pre (fun x => x) (mk_n3cfg true 1 0 0 [] true) [] []) = true /\
+  opt_out_flag (mk_n3cfg true 1 1 0 [] true) = true /\ opt_out_flag (mk_n3cfg true 1 129 0 [] true) = true /\
+  opt_out_flag (mk_n3cfg true 1 2 0 [] true) = false /\ nsec3_class = 1.
+Proof. vm_compute. repeat split. Qed.
